@@ -344,7 +344,7 @@ def _directive_probes(pm, pred):
     return good, bad
 
 
-def check_result(op, pm, pred, result, source_schema, st, src_kind, before=None):
+def check_result(op, pm, pred, result, source_schema, st, src_kind, before=None, probe_directives=True):
     """oracles on a produced schema; -> list of (class, detail)"""
     from py_gql.lang import parse
     from py_gql.validation import validate_ast
@@ -392,7 +392,7 @@ def check_result(op, pm, pred, result, source_schema, st, src_kind, before=None)
                 break
     # directive arguments typed by input objects: a query applying the directive with an input object
     # literal sees exactly the predicted input fields (renamed keys accepted, old keys and hidden fields not)
-    if op["op"] != "fix" and not out:
+    if op["op"] != "fix" and not out and probe_directives:
         good, bad = _directive_probes(pm, pred)
         for expect_valid, queries in ((True, good), (False, bad)):
             for q in queries:
@@ -551,7 +551,9 @@ def run_history(kind, history, st=None, check_last=True):
                         st.nt(("transition", kind, _jkey(history)))
                     if isinstance(digest.get("derived"), dict) and digest["derived"].get("memo") != "ok":
                         out.append(("stale-memo:result:%s" % fam, "after %s: %s" % (op, digest["derived"]["memo"])))
-                    out.extend(check_result(op, pm, pred, result, schema, st, kind, before))
+                    # the directive literal probes run for one-operation histories; longer histories are
+                    # tied to those by the differential oracle (result equal to the pristine-source result)
+                    out.extend(check_result(op, pm, pred, result, schema, st, kind, before, probe_directives=len(history) == 1))
             # history independence: same result as on a pristine source
             if pre_consistent and len(history) > 1:
                 ref_history = [o for o in history[:-1] if o["op"] in S.IN_PLACE] + [op]
